@@ -61,6 +61,7 @@ type c04In struct {
 	FileSkip int    `json:"file_skip,omitempty"`    // the upload is a seekable reader handed over after this many bytes were already read
 	Wire     string `json:"wire,omitempty"`     // "" = request serialised and re-parsed in process; "tcp" = a real loopback HTTP server and the default transport
 	RespPad  int    `json:"resp_pad,omitempty"` // the response body is followed by this many padding bytes (large bodies are streamed by a real transport)
+	AuthQ    bool   `json:"auth_q,omitempty"`   // the credential is an API key in the QUERY, under the name of the form field f1 (the form field must still arrive as set)
 	Sign     bool   `json:"sign,omitempty"`     // the auth writer is a request-signing one: it reads the body through GetBody() before setting its header
 	Stream   int    `json:"stream,omitempty"`   // body kind json only: 0 = a value the producer serialises, 1 = an io.Reader over the serialised bytes, 2 = an io.ReadCloser
 	BigFile  int    `json:"big_file,omitempty"` // multipart only: the upload is this many bytes derived from FileSeed (compared by digest)
@@ -261,6 +262,10 @@ func (c04) Gen(r *rand.Rand, tier string, i int) any {
 	}
 	in.ConsAlt = r.Intn(3) == 0
 	in.Sign = in.Auth && r.Intn(2) == 0
+	in.AuthQ = in.Auth && r.Intn(3) == 0
+	if in.AuthQ {
+		in.Sign = false
+	}
 	in.Stream = r.Intn(3)
 	if r.Intn(4) == 0 {
 		in.Wire = "tcp"
@@ -561,6 +566,9 @@ func c04Spec(in c04In) string {
 	if in.Auth {
 		sec = `"security":[{"key":[]}],`
 		secdef = `"securityDefinitions":{"key":{"type":"apiKey","in":"header","name":"X-Key"}},`
+		if in.AuthQ {
+			secdef = `"securityDefinitions":{"key":{"type":"apiKey","in":"query","name":"f1"}},`
+		}
 	}
 	tpl, _ := json.Marshal(in.Template)
 	return fmt.Sprintf(`{"swagger":"2.0","info":{"title":"t","version":"1"},%s%s"paths":{%s:{%q:{%s"consumes":%s,"produces":%s,"parameters":[%s],"responses":{"201":{"description":"ok","schema":{"type":"string"}}}}}}}`,
@@ -785,6 +793,13 @@ func c04RunOne(in c04In) c04Obs {
 				case *security.ScopedAuthRequest:
 					r = x.Request
 				}
+				if in.AuthQ {
+					if v := r.URL.Query().Get("f1"); v != "" {
+						obs.AuthSeen = Bs(v)
+						return true, "principal", nil
+					}
+					return false, nil, nil
+				}
 				if v := r.Header.Get("X-Key"); v != "" {
 					obs.AuthSeen = Bs(v)
 					return true, "principal", nil
@@ -915,7 +930,9 @@ func c04RunOne(in c04In) c04Obs {
 		}
 		if in.Auth {
 			op.AuthInfo = client.APIKeyAuth("X-Key", "header", "secret-token")
-			if in.Sign { // a signing scheme: looks at the body first
+			if in.AuthQ {
+				op.AuthInfo = client.APIKeyAuth("f1", "query", "secret-token")
+			} else if in.Sign { // a signing scheme: looks at the body first
 				op.AuthInfo = runtime.ClientAuthInfoWriterFunc(func(req runtime.ClientRequest, _ strfmt.Registry) error {
 					obs.SignCalled = true
 					obs.Signed = c04Digest(req.GetBody())
@@ -1113,7 +1130,7 @@ func c04AuthOK(in c04In, obs c04Obs) bool {
 	if obs.AuthSeen != "secret-token" {
 		return false
 	}
-	if in.Sign {
+	if in.Sign && !in.AuthQ {
 		if !obs.SignCalled {
 			return false
 		}
@@ -1212,6 +1229,9 @@ func (c04) Category(inAny any, obsAny any) (string, bool) {
 		a = "auth"
 		if in.Sign {
 			a = "auth-signing"
+		}
+		if in.AuthQ {
+			a = "auth-query-key-named-like-the-form-field"
 		}
 	}
 	if in.Body == "json" {
